@@ -29,18 +29,24 @@ def seeded_table():
     bp = os.path.join(ROOT, "seeded", "BEFORE_FEEDBACK.json")
     if os.path.exists(bp):
         before = json.load(open(bp)).get("results", {})
+    bp2 = os.path.join(ROOT, "seeded", "BEFORE_FEEDBACK_LATER_ROUNDS.json")
+    if os.path.exists(bp2):
+        before.update(json.load(open(bp2)).get("results", {}))
     for m in sorted(glob.glob(os.path.join(ROOT, "seeded", "*", "meta.json"))):
         d = json.load(open(m))
         al = ", ".join(f"{a['check']} ({a['signatures'][0] if a['signatures'] else ''})" for a in d.get("alarms", [])) or "-"
         b = before.get(d['name'], {})
-        bf = "?" if not b else ("yes" if b.get("caught_by_target_check_before_feedback") else "no")
+        v = b.get("caught_by_target_check_before_feedback") if b else None
+        bf = "?" if v is None else ("yes" if v else "no")
         rows.append(f"| {d['name']} | {d['property']} | {d.get('needs', '')} | {'yes' if d.get('confirmed') else 'NO'} | {al} | {'yes' if d.get('caught_by_target_property_check') else ('other check only' if d.get('caught_by_any_check') else 'MISSED')} | {bf} |")
     if not rows:
         return "(none yet)\n"
     n = len(rows)
     nb = sum(1 for r in rows if r.rstrip().endswith("| yes |"))
-    tail = f"\nOf {n} confirmed changes, the check of the targeted property at the commit before any sub-agent change had been seen (last column) caught {nb}; with the workloads strengthened in response (Deviations 4, 6, 8, 8a) all {n} are caught by the targeted property's own check.\n" if before else ""
-    return "\n".join(["| change | property | needs, to manifest | confirmed (98+3 tests pass, demo fails / passes without) | checks that alarm now (quick tier, all 18 run) | caught by its property's check now | ... and by that check before any feedback (9501b01) |", "|---|---|---|---|---|---|---|"] + rows) + "\n" + tail
+    nn = sum(1 for r in rows if r.rstrip().endswith("| no |"))
+    now = sum(1 for r in rows if "| yes | yes |" in r or "| yes | no |" in r or "| yes | ? |" in r)
+    tail = f"\nOf {n} confirmed changes (six rounds), {now} are caught by the targeted property's own check as it stands. The last column says what that check did BEFORE it had been extended in response to the change's round (rounds 1-3: re-run of commit 9501b01 against the archived patches; rounds 4-6: observed directly at the time): {nb} caught, {nn} not caught, the rest not measured at that point. Every 'no' is a gap that the round closed (Deviations 4, 6, 8, 8a-8d).\n" if before else ""
+    return "\n".join(["| change | property | needs, to manifest | confirmed (98+3 tests pass, demo fails / passes without) | checks that alarm now (quick tier, all 18 run) | caught by its property's check now | ... and by that check before it was extended in response |", "|---|---|---|---|---|---|---|"] + rows) + "\n" + tail
 
 def refactors_table():
     rows = []
